@@ -173,7 +173,7 @@ def in_coq_x_sample(prop):
     def zl(l):
         return '[' + '; '.join('(%d)%%Z' % x for x in l) + ']'
     lines = ['From Coq Require Import List ZArith.',
-             'From TexModel Require Import CLO Buffer Args Views Edit.',
+             'From TexModel Require Import CLO Buffer Args Views Edit Regex.',
              'Import ListNotations.', '']
     n = 0
     for m, cases in sorted(X_SAMPLES.items()):
